@@ -405,6 +405,48 @@ func c15Expand(r *Run) {
 						}
 					}
 				}
+				// what is stored for the inserted rows: every name replaced (checked when no later operation of
+				// the transaction rewrites the rows)
+				rewritten := false
+				for _, o := range ops {
+					if o.Op == "update" || o.Op == "mutate" || o.Op == "delete" {
+						rewritten = true
+					}
+				}
+				if !rewritten {
+					byUUID := map[string]DumpRow{}
+					for _, row := range d {
+						byUUID[row.UUID] = row
+					}
+					for k, o := range ops {
+						if o.Op != "insert" || k >= len(out.Results) {
+							continue
+						}
+						st, ok := byUUID[out.Results[k].UUID]
+						if !ok {
+							continue
+						}
+						for cn, v := range o.Row {
+							col := t.Col(cn)
+							if col == nil {
+								continue
+							}
+							want := ovsToNativeValue(col.Type, c15ExpandExpected(t, cn, v, declared))
+							if want == nil {
+								continue
+							}
+							if got := st.Row[cn]; got == nil || sortedValue(got).Canon() != sortedValue(want).Canon() {
+								gc := "absent"
+								if got != nil {
+									gc = sortedValue(got).Canon()
+								}
+								r.Violation("transact", cs, fmt.Sprintf("row %s column %s = %s", st.UUID, cn, gc), sortedValue(want).Canon(), true,
+									"a name used in a uuid-typed column of an inserted row is not stored as the UUID of the row inserted under that name", "")
+								break
+							}
+						}
+					}
+				}
 				sort.Strings(reported)
 				for _, u := range reported {
 					if !stored[u] {
